@@ -92,10 +92,11 @@ func zzWrite(w *zzWorld, kind int, p Parameters, amt *big.Int, target *big.Int, 
 	case zzKCreateScript:
 		rs := zzScript(zzSendScript, map[string]string{"m": "USD/2 " + amt.String()})
 		rs.Metadata = zzMeta(w, "tag", tag)
+		rs.Timestamp = w.stamp
 		tx, err := w.commander.CreateTransaction(w.ctx, p, rs)
 		return zzResp{tx, err}
 	case zzKCreatePostings:
-		td := ledger.TransactionData{Postings: ledger.Postings{{Source: "a", Destination: "c", Asset: "USD/2", Amount: amt}}, Metadata: zzMeta(w, "tag", tag)}
+		td := ledger.TransactionData{Postings: ledger.Postings{{Source: "a", Destination: "c", Asset: "USD/2", Amount: amt}}, Metadata: zzMeta(w, "tag", tag), Timestamp: w.stamp}
 		tx, err := w.commander.CreateTransaction(w.ctx, p, ledger.TxToScriptData(td, false))
 		return zzResp{tx, err}
 	case zzKRevert:
@@ -242,10 +243,19 @@ func zzLogOfTx(st *zzStore, id *big.Int) (*ledger.ChainedLog, *ledger.Transactio
 // shape = kind*3 + mode; mode 0 real, 1 preview, 2 real twice through one idempotency key.
 func ZZ_C16(shape int) {
 	kind, mode := shape/3, shape%3
+	target := 0
+	if shape >= 3*zzKinds {
+		// the same write aimed at a transaction that does not exist (refused), with and
+		// without an idempotency key
+		kind, mode, target = []int{zzKRevert, zzKSetTxMeta, zzKDeleteTxMeta}[(shape-3*zzKinds)/2], 2*((shape-3*zzKinds)%2), 7
+	}
 	amt := verifhook.BigInt("amt")
 	st := zzNewStore()
 	st.setOpening("a", "USD/2", verifhook.BigInt("bal_a"))
 	_, N := zzPreload(st)
+	if target != 0 {
+		N = new(big.Int).Add(N, big.NewInt(int64(target)))
+	}
 	w := zzStartBus(st, NewDefaultLocker())
 	p := Parameters{}
 	switch mode {
@@ -255,6 +265,10 @@ func ZZ_C16(shape int) {
 		p.IdempotencyKey = "ik-1"
 	}
 	r := zzWrite(w, kind, p, amt, N, "w")
+	if target != 0 {
+		verifhook.Reach("aimed-at-nothing")
+		verifhook.Assert(r.err != nil, "C16 a write on a transaction that does not exist is accepted")
+	}
 	if mode == 2 {
 		zzWrite(w, kind, p, amt, N, "w")
 	}
@@ -328,9 +342,22 @@ var zzC13BigIDs = []string{"", "9007199254740993", "1234567890123456789", "46116
 
 var zzMetaVariantNames = []string{"one entry", "nil", "empty", "two entries (one empty value)", "one entry, written right after a preview of the same request"}
 
-func ZZ_C13N() int { return zzKinds * (len(zzC13BigIDs) + 4) }
+// timestamps as a client may send them (parsed the way the API decodes them)
+var zzC13Stamps = []string{
+	"2023-06-01T12:00:00.123456789+05:30",
+	"9999-12-31T23:30:00-01:00",
+	"0000-01-01T00:30:00+01:00",
+	"9999-12-31T23:59:59.9999995Z",
+	"0001-01-01T00:00:00Z",
+	"1969-12-31T23:59:59.999999499Z",
+}
+
+func ZZ_C13N() int { return zzKinds*(len(zzC13BigIDs)+4) + 2*len(zzC13Stamps) }
 
 func ZZ_C13Desc(i int) string {
+	if k := i - zzKinds*(len(zzC13BigIDs)+4); k >= 0 {
+		return "write kind: " + zzKindNames[k%2] + ", client timestamp " + zzC13Stamps[k/2]
+	}
 	if v := i/zzKinds - len(zzC13BigIDs); v >= 0 {
 		return "write kind: " + zzKindNames[i%zzKinds] + ", last transaction id symbolic (< 2^62), metadata " + zzMetaVariantNames[v+1]
 	}
@@ -342,6 +369,10 @@ func ZZ_C13Desc(i int) string {
 }
 
 func ZZ_C13(shape int) {
+	stamp := ""
+	if k := shape - zzKinds*(len(zzC13BigIDs)+4); k >= 0 {
+		stamp, shape = zzC13Stamps[k/2], k%2 // create(script) / create(postings)
+	}
 	kind := shape % zzKinds
 	amt := verifhook.BigInt("amt")
 	var w *zzWorld
@@ -359,6 +390,14 @@ func ZZ_C13(shape int) {
 		st.setOpening("a", "USD/2", verifhook.BigInt("bal_a"))
 		zzPreloadWith(st, N)
 		w = zzStart(st, NewDefaultLocker())
+	}
+	if stamp != "" {
+		ts, err := ledger.ParseTime(stamp)
+		if err != nil {
+			verifhook.Reach("timestamp-refused")
+			return
+		}
+		w.stamp = ts
 	}
 	w.metaVariant = variant
 	if variant == 4 {
